@@ -65,6 +65,7 @@ def make_plan(ctx):
 
 def body(ctx):
     ctx.model("LaneEquiv.tla", "LaneEquivQuick.cfg" if ctx.quick else None, timeout=1500)
+    ctx.model("K_IntKernels.tla", timeout=600)
     plan = lanes.replay_plan(ctx.replay) if ctx.replay else make_plan(ctx)
     ctx.log("plan: %d lines" % len(plan))
     events, plan = lanes.record(ctx, "int", plan, "c07")
